@@ -15,9 +15,30 @@ from .symnum import SArr, Rat, rat, fsym, SymAbort
 from .npmodel import NumpyRaise, ModelAbort
 
 
+class DType(Marker):
+    """np.float64 & co: comparable by name, callable as a conversion"""
+    def __call__(self, x=0):
+        return x
+
+    def __eq__(self, o):
+        n = o.name if isinstance(o, Marker) else getattr(o, "name", None) if isinstance(o, BT) else None
+        if n is None:
+            return False
+        norm = lambda z: z.replace("np.", "").replace("dtype:", "").replace("float64", "float").replace("int64", "int")
+        return norm(n) == norm(self.name)
+
+    __hash__ = Marker.__hash__
+
+
+class Flags:
+    writeable = True
+    c_contiguous = True
+
+
 class SymInterp(Interp):
     def __init__(self, prog, **kw):
         super().__init__(prog, **kw)
+        self.taint_mode = "concrete"       # grid sizes are concrete by construction in this domain
         self.generic_notes = []
         self.dist_calls = []
 
@@ -219,6 +240,8 @@ class SymInterp(Interp):
         return super().aug(op, cur, val, node)
 
     def get_attr(self, v, name, node=None):
+        if isinstance(v, Flags):
+            return getattr(v, name)
         if isinstance(v, SArr):
             return self.sarr_attr(v, name, node)
         if isinstance(v, Rat):
@@ -243,7 +266,11 @@ class SymInterp(Interp):
         if name == "T":
             return S.transpose(a)
         if name == "dtype":
-            return Marker("dtype:" + a.dtype)
+            return DType("np." + {"float": "float64", "int": "int64"}.get(a.dtype, a.dtype))
+        if name == "flags":
+            return Flags()
+        if name in ("any", "all"):
+            return lambda axis=None, **kw: self.np_attr(name, None)(a)
         if name == "copy":
             return lambda order=None: a.copy()
         if name == "sum":
@@ -257,12 +284,28 @@ class SymInterp(Interp):
         if name == "astype":
             def astype(t, copy=True):
                 r = a.copy()
-                if isinstance(t, BT) and t.name == "int":
+                tn = t.name if isinstance(t, (BT, Marker)) else str(t)
+                if "int" in tn:
+                    for x in r.data:
+                        if isinstance(x, Rat) and "nan" in x.symbols():
+                            raise PyRaise("ValueError", node, "cannot convert float NaN to integer")
+                        if not isinstance(x, Rat):
+                            raise PyRaise("ValueError", node, f"invalid literal for int(): {x!r}")
                     r.dtype = "int"
                 return r
             return astype
         if name == "flatten" or name == "ravel":
-            return lambda order="C": SArr((a.size,), list(a.data))
+            def flat(order="C"):
+                if order in ("K", "A") and a._view is not None:
+                    # memory order: the elements in the order they lie in the base array
+                    base, pos = a._view
+                    if len(set(pos)) == len(pos):
+                        d = a.data
+                        return SArr((a.size,), [d[i] for i in sorted(range(len(pos)), key=lambda i: pos[i])])
+                if order == "F":
+                    return SArr((a.size,), list(S.transpose(a).data))
+                return SArr((a.size,), list(a.data))
+            return flat
         if name == "tolist":
             def tolist():
                 def rec(x):
@@ -462,21 +505,26 @@ class SymInterp(Interp):
                 I.generic_notes.append("np.unique groups exactly equal symbolic entries, in order of first occurrence")
                 return out[0] if len(out) == 1 else tuple(out)
             return unique
-        if name in ("flatnonzero", "nonzero", "argwhere"):
+        if name == "nonzero":
+            def nonzero(a):
+                a = S.asarr(a)
+                idxs = [idx for idx, v in zip(a.indices(), a.data) if not (isinstance(v, Rat) and v.is_zero())]
+                return tuple(SArr((len(idxs),), [rat(i[k]) for i in idxs]) for k in range(a.ndim))
+            return nonzero
+        if name in ("flatnonzero", "argwhere"):
             def fnz(a):
                 a = S.asarr(a)
                 if not all(v.is_const() for v in a.data):
                     raise AnalysisAbort(f"np.{name} over symbolic data")
                 flat = [i for i, v in enumerate(a.data) if v.const() != 0]
-                if name == "flatnonzero" or a.ndim == 1 and name == "nonzero":
-                    r = SArr((len(flat),), [rat(i) for i in flat])
-                    return r if name == "flatnonzero" else (r,)
+                if name == "flatnonzero":
+                    return SArr((len(flat),), [rat(i) for i in flat])
                 raise AnalysisAbort(f"np.{name} of an n-d array")
             return fnz
         if name == "arange":
             return lambda *a: SArr.from_nested([int(self.idx(x)) for x in range(*[int(self.idx(v)) for v in a])])
         if name == "isnan":
-            return lambda a: S.elementwise(lambda x: rat(0), a)
+            return lambda a: S.elementwise(lambda x: rat(1 if (isinstance(x, Rat) and "nan" in x.symbols()) else 0), a)
         if name == "isfinite":
             return lambda a: S.elementwise(lambda x: rat(1), a)
         if name == "reshape":
@@ -494,10 +542,8 @@ class SymInterp(Interp):
             return lambda a: S.asarr(a).shape
         if name == "finfo":
             return lambda dt: Opaque("finfo")
-        if name in ("float64", "float32"):
-            return lambda a: a
-        if name in ("int16", "int32", "int64", "intp"):
-            return Marker("np." + name)
+        if name in ("float64", "float32", "int8", "int16", "int32", "int64", "intp", "uint8", "uint16", "uint32", "object_", "bool_"):
+            return DType("np." + name)
         if name == "flip":
             def flip(a, axis=None):
                 key = tuple(slice(None, None, -1) if (axis is None or i == int(axis) % a.ndim) else slice(None) for i in range(a.ndim))
@@ -514,9 +560,9 @@ class SymInterp(Interp):
             return tri
         raise AnalysisAbort(f"np.{name} is not modelled (symbolic arrays)")
 
-    def builtin(self, name):
+    def _builtin(self, name):
         if name == "abs":
-            base = super().builtin(name)
+            base = super()._builtin(name)
 
             def ab(v):
                 if isinstance(v, (SArr, Rat)):
@@ -524,7 +570,7 @@ class SymInterp(Interp):
                 return base(v)
             return ab
         if name == "len":
-            base = super().builtin(name)
+            base = super()._builtin(name)
 
             def length(v):
                 if isinstance(v, SArr):
@@ -541,7 +587,7 @@ class SymInterp(Interp):
                 return tot
             return summ
         if name in ("max", "min"):
-            base = super().builtin(name)
+            base = super()._builtin(name)
 
             def mm(*args, default=Ellipsis, key=None):
                 vals = self.iterate(args[0]) if len(args) == 1 else list(args)
@@ -550,15 +596,26 @@ class SymInterp(Interp):
                 return base(*args, default=default, key=key) if default is not Ellipsis else base(*args)
             return mm
         if name == "range":
-            base = super().builtin(name)
+            base = super()._builtin(name)
             return lambda *a: base(*[self.idx(x) if isinstance(x, (Rat, SArr)) else x for x in a])
         if name == "bool":
             return BT("bool", (bool,), lambda v=False: self.truth(v))
         if name == "float":
             return BT("float", (float,), lambda v=0.0: v if isinstance(v, Rat) else float(v))
         if name == "int":
-            return BT("int", (int,), lambda v=0: int(v.const()) if isinstance(v, Rat) and v.is_const() else int(v))
-        return super().builtin(name)
+            # int() of a generic symbolic real: some integer that equals no label
+            def to_int(v=0):
+                if isinstance(v, Rat):
+                    if "nan" in v.symbols():
+                        raise ValueError("cannot convert float NaN to integer")
+                    return int(v.const()) if v.is_const() else ("int-of", v.canon())
+                if type(v).__name__ == "NaNType":
+                    raise ValueError("cannot convert float NaN to integer")
+                return int(v)
+            return BT("int", (int,), to_int)
+        if name == "str":
+            return BT("str", (str,), lambda v="": ("str-of:" + v.canon()) if isinstance(v, Rat) else self.to_str(v))
+        return super()._builtin(name)
 
     def call(self, f, args, kwargs, node=None):
         if f is NDARRAY:
